@@ -223,6 +223,7 @@ type gCfg struct {
 	tf        int             // 0 ok, 1 factory fails, 2 Listen fails
 	rr        string          // relay rewrite: "" | drop | rep | app
 	sr        string          // srflx rewrite: "" | rep | app | drop
+	hr        string          // host rewrite rule: "" | <rep|app>:<pinned local|->:<iface|->:<ext+ext+...>
 	hold      bool
 	raw       string
 	rawIfaces string
@@ -279,6 +280,9 @@ func gParseCfg(s string) *gCfg {
 	}
 	if v := m["sr"]; v != "-" {
 		c.sr = v
+	}
+	if v := m["hr"]; v != "-" {
+		c.hr = v
 	}
 	c.hold = m["hold"] == "1"
 	return c
@@ -1075,10 +1079,46 @@ func (w *gWorld) newAgent() (*Agent, error) {
 		}
 		rules = append(rules, r)
 	}
+	if c.hr != "" {
+		// a HOST rewrite rule: replace / append, catch-all or pinned to a local address, optionally scoped to
+		// one interface; the socket stays on the local address, the candidate publishes the external one
+		f := strings.Split(c.hr, ":")
+		if len(f) == 4 {
+			r := AddressRewriteRule{AsCandidateType: CandidateTypeHost, Mode: AddressRewriteReplace}
+			if f[0] == "app" {
+				r.Mode = AddressRewriteAppend
+			}
+			if f[1] != "-" {
+				r.Local = gIP(f[1]).String()
+			}
+			if f[2] != "-" {
+				r.Iface = "if" + f[2]
+			}
+			for _, e := range gList(f[3]) {
+				r.External = append(r.External, gIP(e).String())
+			}
+			rules = append(rules, r)
+		}
+	}
 	if len(rules) > 0 {
 		opts = append(opts, WithAddressRewriteRules(rules...))
 	}
 	a, err := newAgentFromConfig(ac, opts...)
+	if c.md && len(rules) > 0 && (err == nil || errors.Is(err, ErrIneffectiveNAT1To1IPMappingHost)) {
+		// the mode is set after construction (no mDNS server in the bubble): run the constructor's own check of
+		// the rewrite rules (the last of its checks) against the mode it would have seen
+		probe := &Agent{mDNSMode: MulticastDNSModeQueryAndGather, candidateTypes: ac.CandidateTypes}
+		perr := WithAddressRewriteRules(rules...)(probe)
+		if perr == nil {
+			perr = applyAddressRewriteMapping(probe)
+		}
+		if perr != nil {
+			if a != nil {
+				_ = a.Close()
+			}
+			return nil, perr
+		}
+	}
 	if err != nil {
 		return nil, err
 	}
@@ -1119,6 +1159,24 @@ func (w *gWorld) candString(c Candidate) string {
 	if ra := c.RelatedAddress(); ra != nil {
 		base = gTokOfString(ra.Address)
 		bport = ra.Port
+	}
+	if t == "h" && addr != "nm.0" {
+		// the address the candidate's SOCKET is bound to, when it is not the published address (host rewrite);
+		// not for a candidate that only has an mDNS name
+		if h, ok := c.(*CandidateHost); ok && h.conn != nil {
+			var lip net.IP
+			switch la := h.conn.LocalAddr().(type) {
+			case *net.UDPAddr:
+				lip = la.IP
+			case *net.TCPAddr:
+				lip = la.IP
+			}
+			if lip != nil {
+				if b := gTok(lip); b != addr {
+					base = b
+				}
+			}
+		}
 	}
 	port := c.Port()
 	if t == "s" {
@@ -1293,6 +1351,10 @@ func gErrTok(err error) string {
 		return "err:port"
 	case errors.Is(err, ErrUselessUrlsProvided):
 		return "err:uselessurls"
+	case errors.Is(err, ErrIneffectiveNAT1To1IPMappingHost):
+		return "err:ineffective"
+	case errors.Is(err, ErrMulticastDNSWithNAT1To1IPMapping):
+		return "err:mdnsrewrite"
 	case strings.Contains(err.Error(), "closed"):
 		return "err:closed"
 	}
@@ -1679,7 +1741,7 @@ func gEndSession() string {
 }
 
 // ---------------------------------------------------------------------------------------------
-// canary sessions: which of the findings C18-G1..G5 (numbers 1..5) does the code under test still have?  The answer is
+// canary sessions: which of the findings C18-G1..G5, G8, G9 (numbers 1..5, 8, 9) does the code under test still have?  The answer is
 // printed in the `new` line (q=1+2, "-" = none) and selects the variant of the MODEL that is compared;
 // the spec monitors do not depend on it.
 // ---------------------------------------------------------------------------------------------
@@ -1724,6 +1786,12 @@ func gDetectQuirks(o *vOut) {
 	}
 	if strings.Contains(gField(run("ct=h,nt=u6,um=s6.1,su=0,tu=0,sr=-,"+base, "0:u:g4.1", "gather"), "c"), "s6.1") {
 		q = append(q, "5")
+	}
+	if strings.Contains(gField(run("ct=h,nt=u6,um=-,su=0,tu=0,sr=-,hr=rep:-:-:s6.71,"+base, "0:u:g6.1", "gather"), "c"), "s6.71") {
+		q = append(q, "8")
+	}
+	if !strings.Contains(gField(run("ct=h,nt=u4,um=g4.1,su=0,tu=0,sr=-,hr=rep:-:-:k4.70,"+base, "0:u:g4.1", "gather"), "c"), "k4.70") {
+		q = append(q, "9")
 	}
 	if len(q) > 0 {
 		gQuirks = strings.Join(q, "+")
